@@ -516,9 +516,76 @@ func c16lostRoot(c *fw.Ctx) {
 	c.Count("reader_runs_on_a_lost_root", 1)
 }
 
+// c16syncVsReads: one goroutine keeps syncing the trie to its own root (MergeDB with a small donor and a dead-node list,
+// the way a state sync hands them over) while others read deletes, change sets and values. The content must stay what it
+// was; the race detector watches the shared lists.
+func c16syncVsReads(c *fw.Ctx) {
+	r := c.Rng
+	store := util.NewMemoryNodeDB()
+	m0 := lab.NewMPT(store, c16version, nil)
+	mdl := map[string][]byte{}
+	for i, p := range []string{"0a", "0b1c", "1d", "0a2e", "1d3f"} {
+		v := []byte(fmt.Sprintf("v%d", i))
+		_, _ = m0.Insert(util.Path(p), &lab.Val{B: v})
+		mdl[p] = v
+	}
+	root := append([]byte(nil), m0.GetRoot()...)
+	nodes, _ := lab.Walk(store, root)
+	donor := util.NewMemoryNodeDB()
+	_ = donor.PutNode(nodes[len(nodes)-1].Key, nodes[len(nodes)-1].Node)
+	dead := []util.Node{util.NewLeafNode(util.Path(""), util.Path("ff"), 1, &util.SecureSerializableValue{Buffer: []byte("dead")})}
+	shared := lab.NewMPT(&jitterDB{NodeDB: store}, c16version, root)
+	var wg sync.WaitGroup
+	var bad atomic.Value
+	wg.Add(1)
+	go func() {
+		defer wg.Done()
+		for i := 0; i < 25; i++ {
+			if err := shared.MergeDB(donor, root, dead); err != nil {
+				bad.Store(fmt.Sprintf("MergeDB to the trie's own root failed: %v", err))
+			}
+		}
+	}()
+	for gi := 0; gi < 2+r.Intn(3); gi++ {
+		wg.Add(1)
+		go func(gi int) {
+			defer wg.Done()
+			for i := 0; i < 40; i++ {
+				switch (gi + i) % 4 {
+				case 0:
+					_ = shared.GetDeletes()
+				case 1:
+					_, _, _, _ = shared.GetChanges()
+				case 2:
+					_ = shared.GetChangeCount()
+				default:
+					for p, v := range mdl {
+						if d, err := shared.GetNodeValueRaw(util.Path(p)); err != nil || !bytes.Equal(d, v) {
+							bad.Store(fmt.Sprintf("lookup %q while the trie is synced to its own root = %q, %v", p, d, err))
+						}
+						break
+					}
+				}
+			}
+		}(gi)
+	}
+	wg.Wait()
+	if f := lab.CheckMap(shared, mdl, nil); f != "" {
+		bad.Store("after the syncs: " + f)
+	}
+	if b := bad.Load(); b != nil {
+		c.Violate("", "sync to the trie's own root concurrent with reads: %s", b.(string))
+	}
+	c.Count("reader_runs_beside_a_syncing_goroutine", 1)
+}
+
 func c16readers(c *fw.Ctx) {
 	if c.Idx%8 == 5 {
 		c16lostRoot(c)
+		return
+	}
+	if c.Idx%8 == 6 {
+		c16syncVsReads(c)
 		return
 	}
 	r := c.Rng
@@ -755,11 +822,11 @@ func init() {
 		Race:         true,
 		Rule: "histories: 3..6 goroutines x 4..8 (quick) / 4..11 (thorough) operations (insert with globally unique value, delete, lookup, full Iterate, GetRoot, GetChanges as a snapshot (root plus the content reachable through the returned change set, which must belong to one state), SaveChanges with a plain, an already cancelled and a 20 µs context + GetChangeCount) on 3..5 structurally colliding paths of one trie over a store wrapper that injects Gosched/µs sleeps at GetNode/PutNode/DeleteNode, " +
 			"GOMAXPROCS in {1,2,4,16}; call/return stamped at the client boundary from one monotonic clock; a final sequential Iterate+GetRoot is appended. Each history is checked offline with porcupine against a sequential map model in which Iterate must equal the whole map and every root read must equal the independent canonical root (C02 reference) of the state at its linearization point. " +
-			"a quarter of the histories run on a trie object re-opened at the root of preloaded content (saves then go to a layered store with includeDeletes=true); a quarter also merge child tries back (one insert each, through MergeChanges or MergeMPTChanges), modelled as a compare-and-set on the whole content; half of the histories start from a preloaded trie whose node cache was committed to the lower cache layer. expired-save runs: SaveChanges with an already cancelled context followed by 5..45 inserts; the side store may only receive nodes that were pending at the call. reader runs (half with a warmed and committed node cache): 4..8 goroutines doing lookups, Iterate, HasMissingNodes, GetMissingNodeKeys on a trie whose store lacks ~20% of the nodes; results must equal the sequential results; in two thirds of the reader runs 1..2 writers insert fresh paths at the same time (the readers' expected results do not change; afterwards every inserted path and every preloaded path is read again). Every eighth reader run instead removes the root node itself, lets 3..5 goroutines look up (all must fail), puts the root back and requires an insert, a delete and a lookup to return and work. A case that does not finish within 240 s (normal: well under a second plus at most 30 s of history checking) ends the worker and is reported: an operation did not return. Everything runs in the -race binary; each distinct race report (pair of outermost 0chain/common frames) is a violation. " +
+			"a quarter of the histories run on a trie object re-opened at the root of preloaded content (saves then go to a layered store with includeDeletes=true); a quarter also merge child tries back (one insert each, through MergeChanges or MergeMPTChanges), modelled as a compare-and-set on the whole content; half of the histories start from a preloaded trie whose node cache was committed to the lower cache layer. expired-save runs: SaveChanges with an already cancelled context followed by 5..45 inserts; the side store may only receive nodes that were pending at the call. reader runs (half with a warmed and committed node cache): 4..8 goroutines doing lookups, Iterate, HasMissingNodes, GetMissingNodeKeys on a trie whose store lacks ~20% of the nodes; results must equal the sequential results; in two thirds of the reader runs 1..2 writers insert fresh paths at the same time (the readers' expected results do not change; afterwards every inserted path and every preloaded path is read again). Every eighth reader run instead has one goroutine sync the trie to its own root (MergeDB with a donor and a dead-node list) while others read deletes, change sets and values. Every eighth reader run instead removes the root node itself, lets 3..5 goroutines look up (all must fail), puts the root back and requires an insert, a delete and a lookup to return and work. A case that does not finish within 240 s (normal: well under a second plus at most 30 s of history checking) ends the worker and is reported: an operation did not return. Everything runs in the -race binary; each distinct race report (pair of outermost 0chain/common frames) is a violation. " +
 			"non-trivial = history with at least one update overlapping another goroutine's operation; distinct by (scripts, overlap count)",
 		Cases: func(tier string) int { h, r, e := c16layout(tier); return h + r + e },
 		Run:   runC16,
-		Floors: map[string]int64{"histories": 4500, "linearizable": 4500, "operations": 80000, "overlapping_pairs": 20000, "histories_with_overlapping_updates": 2000, "reader_runs": 650, "reader_runs_on_a_lost_root": 80, "reader_runs_with_writers": 330, "reader_runs_with_missing_nodes": 500, "final_saves_checked": 4500, "histories_with_committed_node_cache": 1500, "histories_on_a_reopened_trie": 800, "histories_with_merges": 800, "merges_accepted": 500, "merges_rejected": 100, "reader_runs_with_committed_node_cache": 50, "expired_save_runs": 1500,
+		Floors: map[string]int64{"histories": 4500, "linearizable": 4500, "operations": 80000, "overlapping_pairs": 20000, "histories_with_overlapping_updates": 2000, "reader_runs": 550, "reader_runs_on_a_lost_root": 80, "reader_runs_beside_a_syncing_goroutine": 80, "reader_runs_with_writers": 280, "reader_runs_with_missing_nodes": 420, "final_saves_checked": 4500, "histories_with_committed_node_cache": 1500, "histories_on_a_reopened_trie": 800, "histories_with_merges": 800, "merges_accepted": 500, "merges_rejected": 100, "reader_runs_with_committed_node_cache": 50, "expired_save_runs": 1500,
 			"gomaxprocs:1": 100, "gomaxprocs:16": 100},
 		Assumptions: []string{
 			"histories are small (<= 6 x 11 operations) and numerous; a porcupine timeout (30 s) would be inconclusive, never a violation",
